@@ -106,6 +106,11 @@ def analyse(cfg):
                         if any(s[0] == "field" and s[2] == "events" and _base(s[1])[0] == "ok" and _is_reply_call(_base(s[1])[1])
                                for s in alts(src)):
                             kind = "reply-events"
+                        # `for ev in reply.events { r.events.push(ev) }`: one element of the reply's events per iteration
+                        if c["name"] in ("push", "push_back") and src[0] == "bound" and src[1] == "elem":
+                            es = peel(src[2])
+                            if es[0] == "field" and es[2] == "events" and _base(es[1])[0] == "ok" and _is_reply_call(_base(es[1])[1]):
+                                kind = "reply-events"
                         return ("extend-events", c["name"], kind)
             return None
         if item["k"] != "assign":
@@ -161,7 +166,7 @@ def analyse(cfg):
         for ro in REPLY_ON:
             w = Walker(f, {"outcome": oc, "reply_on": ro}, watch, classify, decide=decide)
             try:
-                table[(oc, ro)] = w.run()
+                table[(oc, ro)] = _merge_loops(w.run())
             except RuntimeError as e:
                 problems.append(str(e))
                 table[(oc, ro)] = set()
@@ -183,6 +188,37 @@ def analyse(cfg):
     res = {"fn": f, "table": table, "problems": problems, "switches": seen}
     cfg._submsg = res
     return res
+
+
+def _merge_loops(seqs):
+    """a loop that only appends events (`for ev in reply.events { r.events.push(ev) }` instead of extend_from_slice) shows
+    up as a path cut at its back edge plus the zero-iteration path; both are replaced by the one-iteration path (prefix,
+    loop body, continuation).  A loop whose body calls `reply` or returns is left marked: the rules reject it."""
+    loops = [s for s in seqs if s and s[-1] == "<loop>"]
+    if not loops:
+        return seqs
+    rets = [s for s in seqs if not (s and s[-1] == "<loop>")]
+    out = set()
+    used = set()
+    for l in loops:
+        body_ok = all(isinstance(e, tuple) and e[0] == "extend-events" for e in l[-2:-1])
+        merged_any = False
+        if body_ok:
+            for r in rets:
+                cp = 0
+                while cp < len(l) - 1 and cp < len(r) and l[cp] == r[cp]:
+                    cp += 1
+                body = l[cp:-1]
+                if body and all(isinstance(e, tuple) and e[0] == "extend-events" for e in body):
+                    out.add(tuple(l[:-1]) + tuple(r[cp:]))
+                    used.add(r)
+                    merged_any = True
+        if not merged_any:
+            out.add(l)
+    for r in rets:
+        if r not in used:
+            out.add(r)
+    return out
 
 
 def count_replies(seq):
